@@ -664,6 +664,7 @@ func Instrumented(headerLines int) {
 
 // LineOffset is the number of lines the instrumenter added at the top of file.
 func LineOffset(file string) int { return instrumented[file] }
+
 var siteMu gosync.Mutex
 
 func active() *Sched {
